@@ -1,6 +1,7 @@
 (* P_C20 — Monomials are never confused, whatever the exponent size. *)
 From Coq Require Import NArith ZArith List Bool Lia.
 From NP Require Import Key KeyP GenKey BridgeKey.
+From NP Require GenSource BridgeSrcC20.
 Import ListNotations.
 Open Scope N_scope.
 
@@ -73,6 +74,12 @@ split; [repeat constructor; rewrite two32_val; vm_compute; reflexivity|].
 split; vm_compute; reflexivity.
 Qed.
 
+(* every binary operation merges the operands' exponent rows in align.py (numpy.unique over the rows): its four
+   functions are still, statement by statement, the modelled ones (the statement is BridgeSrcC20.bridge_src_C20's) *)
+Theorem C20_sources_are_the_modelled_ones :
+  ltac:(let t := type of BridgeSrcC20.bridge_src_C20 in exact t).
+Proof. exact BridgeSrcC20.bridge_src_C20. Qed.
+
 Print Assumptions C20_codec_roundtrip.
 Print Assumptions C20_encode_injective.
 Print Assumptions C20_never_reserved.
@@ -83,3 +90,4 @@ Print Assumptions C20_product_exact.
 Print Assumptions C20_mul_monomials.
 Print Assumptions C20_load_store.
 Print Assumptions C20_unguarded_refuted.
+Print Assumptions C20_sources_are_the_modelled_ones.
